@@ -1,4 +1,5 @@
 import ClipVerif.Proofs.C15
+import ClipVerif.Proofs.C15b
 /-
 C15 — TrimCollinear64 removes exactly the redundant vertices.  Theorems about the hand model
 `Model.trimCollinear` (tied to the code by the `models-corr` stage) with the generated collinearity
@@ -61,5 +62,13 @@ theorem trim_idempotent_full_false :
 theorem trim_no_three_collinear_full_false :
     trimCollinear idemWitness false = #[⟨0, 0⟩, ⟨4, 0⟩, ⟨0, 4⟩, ⟨2, 0⟩] ∧ crossZ ⟨2, 0⟩ ⟨0, 0⟩ ⟨4, 0⟩ = 0 := by
   decide +kernel
+
+/-- closed paths: the exact signed area is unchanged whenever `isCollinear` is sound on the points
+    of the path (it is whenever no coordinate difference it multiplies equals +1, see C14) -/
+theorem trim_closed_area_partial (path : Array Point64)
+    (hcol : ∀ a b c, a ∈ path.toList → b ∈ path.toList → c ∈ path.toList →
+      isCollinear a b c = true → crossZ a b c = 0) :
+    Spec.area2 (pathToI (trimCollinear path false).toList) = Spec.area2 (pathToI path.toList) := by
+  exact Proofs.C15b.trim_closed_area_partial path hcol
 
 end C15
